@@ -14,7 +14,7 @@ def kindOf (k : String) : Option (Style × Nat × Bool) :=
 
 def dump (st : St) : String :=
   String.intercalate ";" (st.expected.map fun r =>
-    let l := (signersOf st.cm st.c r).map fun s => toString s ++ (if st.c r s == some true then "g" else "b")
+    let l := (signersOf st.cm st.c r).map fun s => toString s ++ (if st.c.get r s == some true then "g" else "b")
     if l.isEmpty then "-" else String.intercalate "," l)
 
 def showSubs (l : List Sub) : String :=
